@@ -1380,7 +1380,8 @@ class System:
         else:
             # Else, the last added module wins
             self._remove(first)
-            self.unprocessed_modules.remove(first)
+            if first.parent is None:
+                self.rootobjects.remove(first)
             self._addUnprocessedModule(dup)
 
     def _introspectThing(self, thing: object, parent: CanContainImportsDocumentable, parentMod: _ModuleT) -> None:
@@ -1468,6 +1469,9 @@ class System:
     
     def _remove(self, o: Documentable) -> None:
         del self.allobjects[o.fullName()]
+        if isinstance(o, Module) and o in self.unprocessed_modules:
+            # The sub-modules of a replaced package are not analysed either.
+            self.unprocessed_modules.remove(o)
         oc = list(o.contents.values())
         for c in oc:
             self._remove(c)
